@@ -181,3 +181,5 @@ func treeKey(tc *TreeCase) string {
 	}
 	return s
 }
+
+func evQS(s string) ev.QS { return ev.QS(s) }
